@@ -130,6 +130,10 @@ func Generate(rng *rand.Rand, i int, thorough bool) *p2prig.Scenario {
 	case "advance":
 		// a single honest node serves the whole sync: the sequence of stop hashes must walk the checkpoint list
 		s.BadFirst = false
+		// every other node answers with all it has (or its cap), whatever the stop hash: a message then carries a checkpoint
+		// header in the middle, or the headers of several checkpoints at once
+		s.Engine = []string{"legacy", "exp"}[(i/3)%2]
+		s.Nodes[0].IgnoreStop = (i/6)%2 == 1
 		if rng.Intn(2) == 0 {
 			s.Nodes[0].Cap = []int{7, 50, 500}[rng.Intn(3)]
 			if s.HonestLen > 600 && s.Nodes[0].Cap == 7 {
@@ -175,13 +179,14 @@ func classify(s *p2prig.Scenario) string {
 }
 
 func body(r *ev.Run) {
-	r.Rule("scenarios = seeded draws over engine {legacy, experimental} x {a node whose chain carries a header on the forbidden list at position first/middle/last/alone of its batch; a node whose chain differs from a checkpoint at a checkpoint height; a single honest node serving a sync across 2..4 checkpoints} x checkpoint lists of 0..4 checkpoints at arbitrary heights x 1-2 misbehaving + 1-2 honest nodes x ban duration {1 h, 1 ms}. Misbehaving nodes are the only reachable ones first (so they are asked), then the honest ones open. Oracles: forbidden hash never in the table nor served (404); its sender's connection closed at quiescence; with a 1 h ban no later connection of that host is sent a getheaders, with a 1 ms ban a later connection is admitted; descendants only ORPHAN; re-offence: a host with two connections is banned, the 3 s ban elapses with no attempt of that host, its second connection delivers the forbidden header again and a newcomer of the host must be refused (judged within 1.5 s of the second offence); after a checkpoint mismatch the connection is closed and no further getheaders was sent on it; stop hashes walk the checkpoint list and end with zero; afterwards the service converges on the honest chain (C06 oracle). distinct = structural classes; non-trivial = all.")
+	r.Rule("scenarios = seeded draws over engine {legacy, experimental} x {a node whose chain carries a header on the forbidden list at position first/middle/last/alone of its batch; a node whose chain differs from a checkpoint at a checkpoint height; a single honest node serving a sync across 2..4 checkpoints, its answers ending at the stop hash or carrying all it has (a checkpoint header in the middle of a message, several checkpoints in one message)} x checkpoint lists of 0..4 checkpoints at arbitrary heights x 1-2 misbehaving + 1-2 honest nodes x ban duration {1 h, 1 ms}. Misbehaving nodes are the only reachable ones first (so they are asked), then the honest ones open. Oracles: forbidden hash never in the table nor served (404); its sender's connection closed at quiescence; with a 1 h ban no later connection of that host is sent a getheaders, with a 1 ms ban a later connection is admitted; descendants only ORPHAN; re-offence: a host with two connections is banned, the 3 s ban elapses with no attempt of that host, its second connection delivers the forbidden header again and a newcomer of the host must be refused (judged within 1.5 s of the second offence); after a checkpoint mismatch the connection is closed and no further getheaders was sent on it; every request stops at the first checkpoint above what has been delivered, and at zero (or an announced block) after the last; afterwards the service converges on the honest chain (C06 oracle). distinct = structural classes; non-trivial = all.")
 	r.Assume("the forbidden hash is harness-chosen and appended to the network parameters before the services are built", "contradicting blocks are lighter than honest ones", "experimental engine: peers are attached one after the other (single-outbound-peer design); it disconnects but does not ban", "ban observed by effect at the scripted node")
 	r.Require("forbidden_header_delivered", 3)
 	r.Require("reoffend_newcomer_refused", 2)
 	r.Require("orphan_forbidden_header_delivered", 1)
 	r.Require("checkpoint_mismatch_delivered", 3)
 	r.Require("checkpoint_advance_sequences_checked", 3)
+	r.Require("checkpoint_advance_sequences_with_answers_beyond_the_stop_hash", 2)
 	n := r.Pick(96, 1200)
 	for i := 0; i < n; i++ {
 		caseID := fmt.Sprintf("s/%d", i)
